@@ -272,6 +272,9 @@ def main(rec):
     perline = int(g('perline', '0'))
     blank = g('blank', '0') == '1'
     com = g('com', '0')
+    # chatter that is no part of the answer, in an encoding of the solver's choice
+    banner = {'latin1': b'c r\xe9solveur version 1.0 \xa9\n', 'utf8': 'c r\u00e9solveur \u2713\n'.encode('utf-8'),
+              'none': b''}[g('banner', 'none')]
 
     if fam == 'so':
         if ans == 'silent':
@@ -338,11 +341,11 @@ def main(rec):
                 nl.append('')
                 nl.append('   ')
             lines = nl
-        out.write(eol.join(x.encode('ascii') for x in lines) + eol)
+        out.write(banner + eol.join(x.encode('ascii') for x in lines) + eol)
         finish(code)
 
     # ---- minisat convention: statistics on stdout, answer in the file ----
-    out.write(b'============================[ Problem Statistics ]=====\n'
+    out.write(banner + b'============================[ Problem Statistics ]=====\n'
               b'|  Number of variables: %12d   |\n'
               b'solving...\nvalues follow in the result file\n' % n)
     res = files[1]
@@ -598,11 +601,13 @@ SO_DEV = [
     ('perline', '1'), ('perline', '2'), ('order', 'desc'), ('order', 'rot'),
     ('com', '1'), ('com', '2'), ('blank', '1'), ('term', 'own'), ('vfirst', '1'),
     ('crlf', '1'), ('sp', '1'), ('omit', '1'), ('exit', '0'),
+    ('banner', 'latin1'), ('banner', 'utf8'),
 ]
 FO_DEV = [
     ('perline', '1'), ('perline', '2'), ('order', 'desc'), ('order', 'rot'),
     ('blank', '1'), ('term', 'own'), ('crlf', '1'), ('sp', '1'), ('omit', '1'),
     ('exit', '0'), ('nonl', '1'), ('lead', '1'),
+    ('banner', 'latin1'), ('banner', 'utf8'),
 ]
 SO_COMBOS = [
     {'perline': '2', 'com': '1', 'blank': '1'},
